@@ -300,7 +300,7 @@ def bmp_load_case(rng):
 
 
 # ----------------------------------------------------------------------------- GIF / Targa generators
-def lzw_encode(minsize, pixels, rng, plain):
+def lzw_encode(minsize, pixels, rng, plain, defer_clear=False):
     clear, eoi = 1 << minsize, (1 << minsize) + 1
     out, acc, nb = bytearray(), 0, 0
 
@@ -332,11 +332,12 @@ def lzw_encode(minsize, pixels, rng, plain):
                 cur = t
                 continue
             emit(cur[0] if len(cur) == 1 else table[cur], size)
-            table[t] = nxt
-            nxt += 1
-            if nxt > (1 << size) and size < 12:
-                size += 1
-            if nxt >= 4096:
+            if nxt < 4096:
+                table[t] = nxt
+                nxt += 1
+                if nxt > (1 << size) and size < 12:
+                    size += 1
+            if nxt >= 4096 and not defer_clear:
                 emit(clear, size)
                 table, nxt, size = {}, eoi + 1, minsize + 1
             cur = (p,)
@@ -489,6 +490,69 @@ def family_file(rng, fam, prec, clean):
     return d
 
 
+def gif_big(rng):
+    """GIF whose code table fills up (more than 4096 symbols): both the "clear when full" and the "keep going with a
+    full table" encoders, all code sizes, interlaced or not, runs (KwKwK symbols) and noise mixed"""
+    w, h = rng.range(60, 90), rng.range(55, 80)
+    bits = rng.range(2, 8)
+    d = b"GIF89a" + le(w, 2) + le(h, 2) + bytes([0x80 | (bits - 1), 0, 0]) + rng.bytes(3 << bits)
+    d += b"," + le(0, 2) + le(0, 2) + le(w, 2) + le(h, 2) + bytes([0x40 if rng.chance(1, 2) else 0])
+    pix, cur = [], 0
+    while len(pix) < w * h:
+        if rng.chance(1, 3):
+            pix += [cur] * rng.range(1, 40)
+        else:
+            cur = rng.below(1 << bits)
+            pix.append(cur)
+    pix = pix[:w * h]
+    comp = lzw_encode(bits if bits >= 2 else 2, pix, rng, False, defer_clear=rng.chance(1, 2))
+    d += bytes([max(2, bits)])
+    i = 0
+    while i < len(comp):
+        n = min(len(comp) - i, 255)
+        d += bytes([n]) + comp[i:i + n]
+        i += n
+    return d + b"\x00;"
+
+
+def lzw_raw_gif(rng):
+    """GIF whose image data is an arbitrary bit stream: codes above max_code, early End codes, Clear codes anywhere"""
+    w, h = rng.range(1, 12), rng.range(1, 8)
+    ms = rng.range(2, 8)
+    d = b"GIF87a" + le(w, 2) + le(h, 2) + bytes([0x80 | rng.below(8), 0, 0])
+    d += rng.bytes(3 * (2 << (d[-3] & 7)))
+    d += b"," + le(0, 2) + le(0, 2) + le(w, 2) + le(h, 2) + bytes([0x40 if rng.chance(1, 3) else 0]) + bytes([ms])
+    for _ in range(rng.range(0, 4)):
+        n = rng.choice([1, 2, 3, 7, 255, rng.range(1, 60)])
+        d += bytes([n]) + rng.bytes(n)
+    return d + (b"\x00;" if rng.chance(2, 3) else b"")
+
+
+def rd_case(rng):
+    k = rng.below(20)
+    tga = 0
+    if k < 6:
+        d, fam = gif_file(rng), "gif"
+        if rng.chance(1, 2):
+            d, fam = mutate(rng, d, 13 + 10), "gif-mut"
+    elif k < 9:
+        d, fam = lzw_raw_gif(rng), "gif-rawlzw"
+    elif k < 16:
+        d, fam = tga_file(rng), "tga"
+        tga = 0 if (d[0] == 0 and rng.chance(1, 2)) else 1
+        if rng.chance(1, 2):
+            d, fam = mutate(rng, d, 18), "tga-mut"
+    elif k < 19:
+        d, fam = tga_file(rng), "tga-trunc"
+        tga = 1
+        d = d[:rng.range(18, max(18, len(d)))]
+    else:
+        d, fam = rng.choice([b"G", b"GIF8", b"\x00", b""]) + rng.bytes(rng.range(0, 60)), "random"
+        tga = rng.below(2)
+    mp = rng.choice([1 << 20, 1 << 20, 1 << 20, 4096, 50])
+    return "rd %d %d %s" % (mp, tga, d.hex()), "rd-" + fam, {"maxpixels": mp, "prec": 8}
+
+
 def matrix_cases(rng, n_extra):
     """EVERY format family presented to EVERY entry point / precision: tj3LoadImage8/12/16 x TJPARAM_PRECISION 2..16
     and the cjpeg front end x -precision 2..16; one clean file per cell, then random cells with mutated files"""
@@ -558,7 +622,7 @@ def judge_load(line, impl, meta):
 
 def run(ctx):
     rng = ctx.rng
-    for g in ("Pnm", "ImgPrec"):
+    for g in ("Pnm", "ImgPrec", "ImgRd"):
         if not ctx.regen([g]):
             # core.regen removes gen/Gen<g>.v when the translator fails; a compiled file left from an
             # earlier run would still satisfy make, so remove it as well (request to lead: do this in core)
@@ -607,6 +671,10 @@ def run(ctx):
     for i in range(ctx.n(2500, 40000)):
         cases.append(cj_case(rng))
     cases += matrix_cases(rng, ctx.n(1200, 20000))
+    for i in range(ctx.n(3000, 50000)):
+        cases.append(rd_case(rng))
+    for i in range(ctx.n(6, 60)):
+        cases.append(("rd %d 0 %s" % (1 << 20, gif_big(rng).hex()), "rd-gif-tablefull", {"maxpixels": 1 << 20, "prec": 8}))
     return run_cases(ctx, cases, exes, drv, flavours)
 
 
@@ -712,6 +780,19 @@ def run_cases(ctx, cases, exes, drv, flavours):
                     bad = ("cjpeg front end accepted %sx%s pixels with a limit of %d" % (f[2], f[3], meta["maxpixels"]), "pixel-limit")
             elif not (len(f) >= 3 and f[1] == "err"):
                 bad = ("cjpeg front end produced no verdict: " + impl[:60], "no-verdict")
+        elif cmd == "rd":
+            f = impl.split()
+            if len(f) >= 7 and f[1] == "ok":
+                w, h, comps = int(f[2]), int(f[3]), int(f[4])
+                smp = [int(x) for x in impl.split("|", 1)[1].split()]
+                if len(smp) != w * h * comps:
+                    bad = ("reader delivered %d samples for a %dx%dx%d image" % (len(smp), w, h, comps), "sample-count")
+                elif smp and max(smp) > 255:
+                    bad = ("reader delivered sample %d" % max(smp), "sample-out-of-range")
+                elif meta["maxpixels"] and w * h > meta["maxpixels"]:
+                    bad = ("reader accepted %dx%d pixels with a limit of %d" % (w, h, meta["maxpixels"]), "pixel-limit")
+            elif not (len(f) >= 3 and f[1] == "err"):
+                bad = ("reader produced no verdict: " + impl[:60], "no-verdict")
         elif cmd == "save":
             if not impl.startswith("bytes "):
                 bad = ("tj3SaveImage failed on a valid image: " + impl[:80], "save-failed")
@@ -734,7 +815,7 @@ def run_cases(ctx, cases, exes, drv, flavours):
                 if disagree <= 3:
                     ctx.log("model/impl disagree on", kind, "\n  case :", line[:200], "\n  model:", mv, "\n  impl :", impl[:200])
                 ctx.broken_tie("correspondence:" + kind, "precision acceptance differs on: %s || model=%s || impl=%s" % (line[:400], mv, impl[:200]))
-        if mlines is not None and cmd in ("load", "loadx", "save") and not mlines[i].startswith("skip") and not dead:
+        if mlines is not None and cmd in ("load", "loadx", "save", "rd") and not mlines[i].startswith("skip") and not dead:
             compared += 1
             if mlines[i] != impl:
                 disagree += 1
@@ -743,7 +824,12 @@ def run_cases(ctx, cases, exes, drv, flavours):
                 if not bad:
                     ctx.broken_tie("correspondence:" + kind,
                                    "model and implementation differ on: %s || model=%s || impl=%s" % (line[:400], mlines[i][:200], impl[:200]))
-        oc = " ".join(impl.split()[:3 if cmd in ("cj", "cjx") else 2]) if not impl.startswith(("ok", "bytes", "rt ok")) else impl.split()[0] + (" ok" if cmd == "rt" else "")
+        if impl.startswith("rd ok"):
+            oc = "rd ok" + (" warn" if impl.split()[5] != "0" else "")
+        elif impl.startswith(("ok", "bytes", "rt ok")):
+            oc = impl.split()[0] + (" ok" if cmd == "rt" else "")
+        else:
+            oc = " ".join(impl.split()[:3 if cmd in ("cj", "cjx", "rd") else 2])
         outcomes.setdefault(kind, {})
         outcomes[kind][oc] = outcomes[kind].get(oc, 0) + 1
         ctx.count(kind, 1, (kind, impl[:120]))
